@@ -404,5 +404,13 @@ Definition check_derived_leaf (r r' : routine) (x : string) (ty : rtype) (of : s
        flat_map (fun p => let rho := envQ p (dfltQ 0) in
                           let v := prune_vt (S (height r')) x r' (den_src rho (S (height r')) true "" r' [] [] []) in
                           if vt_ok v then cmp_vtree (S (height r')) inexact rho v t else [1%nat]) pts
+       (* C04: whatever put a resource there, every symbol of the compiled hierarchy is an input of its node and of the root *)
+       ++ closed_ok (S (ct_height t)) (ct_src_params t) t
    | IErr _ => []
-   end).
+   end)%list.
+
+(* C03 with a derived resource: the renamed routine compiled with the same calculator *)
+Definition check_rename_case_d (x : string) (ty : rtype) (of : string) (a b : Q)
+           (r' : routine) (i i' : impl_result) (back : list (string * string))
+           (inexact : bool) (pts : list (list (string * Q))) : list nat * list nat :=
+  (tie_model (compile_routine_d [leaf_calc_e x ty of a b] r') i' inexact pts, rename_spec i i' back inexact pts).
